@@ -209,7 +209,10 @@ void parallel_for_dynamicImpl(
   auto worker = [start, end, &index, f, chunkSize, numChunks, exitAction](auto& s) {
     auto recurseInfo = detail::PerPoolPerThreadInfo::parForRecurse();
     while (true) {
-      auto cur = index.fetch_add(1, std::memory_order_relaxed);
+      // acq_rel, as for exitCounter in the multi-group path: the worker that draws the last exit
+      // index runs the exit action (granularity tail on the first state object, freeing the index)
+      // and must observe everything the other workers did before their own exit increments.
+      auto cur = index.fetch_add(1, std::memory_order_acq_rel);
       if (cur >= numChunks) {
         exitAction(cur);
         break;
